@@ -75,7 +75,7 @@ def scenario(ch, cfg):
     fault = ch.pick(fkinds, "fault")
     if fault == "cut":
         env.cut_plan = {"direction": ch.weighted([1, 3], "cut.dir"), "frame": ch.draw(total_calls + 1, "cut.frame"),
-                        "cls": ch.pick(CUT_CLASSES, "cut.cls"), "kind": ch.pick(["fin", "rst"], "cut.kind"), "cid": 0}
+                        "cls": ch.pick(CUT_CLASSES, "cut.cls"), "kind": ch.pick(["fin", "rst", "fin", "rst", "timeout"], "cut.kind"), "cid": 0}
     if peer_kind == "scripted":
         env.peer.push_budget = (1 + ch.draw(2, "npush")) if fault == "push" else 0
 
@@ -96,6 +96,7 @@ def scenario(ch, cfg):
 
     # ---- server
     if peer_kind == "real":
+        env.server.klong["unpd"] = {1: (lambda: 0)}      # a server-side value that cannot be pickled
         if fault != "connect-first":
             env.start_server(src=["sq::{x*x}", "v::4711", "cnt::{[a];a::x;#a}", "big::{[a];a::x;!a}"])
             w.run(until=lambda: env.listener_up(), max_steps=2000)
@@ -157,7 +158,12 @@ def scenario(ch, cfg):
     # ---- callers
     def make_msg(i, j):
         base = 1000 * (i + 1)
-        kind = 0 if peer_kind == "scripted" else ch.weighted([5, 2, 1, 1, 1, 1, 1, 1, 1], "msgkind")
+        kind = 0 if peer_kind == "scripted" else ch.weighted([10, 4, 2, 2, 2, 2, 2, 2, 2, 1], "msgkind")
+        if kind == 9:
+            # a long history of locally failing requests on this connection (each must raise), then an ordinary call:
+            # failed sends must not use anything up
+            stats["probe_many_unencodable_requests_then_a_call"] += 1
+            return ("many-unencodable", 70, f"{base}+{j}"), base + j
         if kind == 7:
             # a response frame larger than 64 KiB (cuts can then fall inside a large body)
             n = 8300 + 10 * i + j
@@ -197,8 +203,9 @@ def scenario(ch, cfg):
             if error_call == (i, j) or (error_call and error_call[0] == i and j == ncalls[i] - 1 and error_call[1] >= ncalls[i]):
                 # evaluation errors of different kinds, incl. the server's separate "symbol not found" path
                 # (a function call / dictionary get on a name that does not exist)
+                # ... and a request that evaluates fine but to a value that cannot be sent back ("unpd")
                 msg, exp = ch.pick(["1+", "nosuchfn(1)", "[1 2 3]@99", ipc.KGRemoteFnCall(KGSym("nosuchfn"), [1]),
-                                    ipc.KGRemoteDictGetCall(KGSym("nosuchvar"))], "errexpr"), "error"
+                                    ipc.KGRemoteDictGetCall(KGSym("nosuchvar")), "unpd"], "errexpr"), "error"
                 stats["probe_server_error"] += 1
             calls.append((msg, exp))
         plans.append(calls)
@@ -233,6 +240,18 @@ def scenario(ch, cfg):
                 elif isinstance(msg, tuple) and msg[0] == "dictget":
                     stats["probe_dict_handle_caller"] += 1
                     res = ipc.NetworkClientDictHandle(nc).get(KGSym("v"))
+                elif isinstance(msg, tuple) and msg[0] == "many-unencodable":
+                    returned = 0
+                    for _ in range(msg[1]):
+                        try:
+                            nc.call(ipc.KGRemoteFnCall(KGSym("sq"), [lambda: 0]))
+                            returned += 1
+                        except SystemExit:
+                            raise
+                        except BaseException as e:   # noqa
+                            if _from_harness(e):
+                                raise
+                    res = nc.call(msg[2]) if not returned else f"{returned} unencodable request(s) returned a value"
                 elif isinstance(msg, tuple) and msg[0] == "dictset":
                     stats["probe_dict_handle_caller"] += 1
                     h = ipc.NetworkClientDictHandle(nc)
